@@ -455,7 +455,12 @@ def build(prog):
         kwa = dict(real=bool(prog.get("real", False)), tyme=prog.get("ctor_tyme", 0.0))
         if prog.get("ctor_limit") is not None:
             kwa["limit"] = prog["ctor_limit"]
-        run.do_kwa = dict(doers=top, limit=prog.get("limit"), tyme=prog.get("tyme", 0.0))
+        doers_arg = top
+        if prog.get("doers_as") == "tuple":
+            doers_arg = tuple(top)
+        elif prog.get("doers_as") == "generator":
+            doers_arg = (d for d in top)
+        run.do_kwa = dict(doers=doers_arg, limit=prog.get("limit"), tyme=prog.get("tyme", 0.0))
     else:
         kwa = dict(real=bool(prog.get("real", False)), limit=prog.get("limit"), doers=top,
                    tyme=prog.get("tyme", 0.0))
